@@ -21,6 +21,9 @@ pub enum Node {
     MacroCall(Vec<Node>),
     CallBlock(Vec<Node>),
     Block(Vec<Node>),
+    /// a block whose own body assigns nothing (whatever an include inside it assigns must still
+    /// stay inside)
+    BlockBare(Vec<Node>),
     Include,
     /// include of a template that itself extends a layout
     IncludeExtending,
@@ -224,7 +227,7 @@ impl Builder {
                     body: b,
                 });
             }
-            Node::Block(body) => {
+            Node::Block(body) | Node::BlockBare(body) => {
                 if self.in_macro {
                     // blocks are not allowed inside macros
                     let b = self.body(body);
@@ -241,6 +244,9 @@ impl Builder {
                     },
                     inner_mark(k, "b"),
                 ];
+                if matches!(n, Node::BlockBare(_)) {
+                    b.remove(0);
+                }
                 b.extend(self.body(body));
                 self.in_loop = was_loop;
                 out.push(Stmt::Block {
@@ -271,7 +277,29 @@ impl Builder {
 }
 
 fn isolates(n: &Node) -> bool {
-    matches!(n, Node::For { .. } | Node::With(_) | Node::MacroCall(_) | Node::CallBlock(_) | Node::Block(_))
+    matches!(n, Node::For { .. } | Node::With(_) | Node::MacroCall(_) | Node::CallBlock(_) | Node::Block(_) | Node::BlockBare(_))
+}
+
+/// can an include inside these nodes run in the scope the nodes themselves run in (not shielded by
+/// a construct with a scope of its own)? The included template assigns `incleak` at its top level.
+fn include_unshielded(nodes: &[Node]) -> bool {
+    nodes.iter().any(|n| match n {
+        Node::Include => true,
+        Node::For { else_body, .. } => include_unshielded(else_body),
+        Node::SetBlock(b) | Node::FilterBlock(b) | Node::AutoEscape(_, b) => include_unshielded(b),
+        Node::If(a, b) => include_unshielded(a) || include_unshielded(b),
+        _ => false,
+    })
+}
+
+fn contains_include(nodes: &[Node]) -> bool {
+    nodes.iter().any(|n| match n {
+        Node::Include => true,
+        Node::For { body, else_body, .. } => contains_include(body) || contains_include(else_body),
+        Node::With(b) | Node::SetBlock(b) | Node::FilterBlock(b) | Node::AutoEscape(_, b) | Node::MacroCall(b) | Node::CallBlock(b) | Node::Block(b) | Node::BlockBare(b) => contains_include(b),
+        Node::If(a, b) => contains_include(a) || contains_include(b),
+        _ => false,
+    })
 }
 
 /// builds the template source; returns (source, number of conditions, number of lists,
@@ -310,12 +338,14 @@ pub fn build(c: &ScopeCase) -> (String, usize, usize, Vec<(usize, bool)>) {
         top.push(Stmt::Emit(Expr::Test(Box::new(Expr::Var(format!("q{sid}"))), "defined".into(), vec![], false)));
         top.push(Stmt::Text(":".into()));
         top.push(Stmt::Emit(Expr::var("keep")));
+        top.push(Stmt::Text(":".into()));
+        top.push(Stmt::Emit(Expr::Test(Box::new(Expr::var("incleak")), "defined".into(), vec![], false)));
         top.push(Stmt::Text("\u{bb}".into()));
     }
     (print::template_default(&top), b.n_cond, b.n_list, sentinels)
 }
 
-const INCLUDED: &str = "{% for z in [1, 2, 3] %}{% with t = z %}{% if z == 2 %}{% continue %}{% endif %}{% set cap %}{% if z == 3 %}{% break %}{% endif %}i{% endset %}{% endwith %}{% endfor %}\u{2039}inc\u{203a}";
+const INCLUDED: &str = "{% set incleak = 1 %}{% for z in [1, 2, 3] %}{% with t = z %}{% if z == 2 %}{% continue %}{% endif %}{% set cap %}{% if z == 3 %}{% break %}{% endif %}i{% endset %}{% endwith %}{% endfor %}\u{2039}inc\u{203a}";
 
 pub struct Scopes;
 
@@ -348,6 +378,7 @@ fn node(depth: u32) -> BoxedStrategy<Node> {
         1 => sub().prop_map(Node::MacroCall),
         1 => sub().prop_map(Node::CallBlock),
         1 => sub().prop_map(Node::Block),
+        1 => sub().prop_map(Node::BlockBare),
     ]
     .boxed()
 }
@@ -358,7 +389,7 @@ fn has_separated_exit(nodes: &[Node], in_loop: bool, scoped_between: bool) -> bo
         Node::For { body, else_body, .. } => has_separated_exit(body, true, false) || has_separated_exit(else_body, in_loop, scoped_between),
         Node::With(b) | Node::SetBlock(b) | Node::FilterBlock(b) | Node::AutoEscape(_, b) => has_separated_exit(b, in_loop, in_loop),
         Node::If(a, b) => has_separated_exit(a, in_loop, scoped_between) || has_separated_exit(b, in_loop, scoped_between),
-        Node::MacroCall(b) | Node::CallBlock(b) | Node::Block(b) => has_separated_exit(b, false, false),
+        Node::MacroCall(b) | Node::CallBlock(b) | Node::Block(b) | Node::BlockBare(b) => has_separated_exit(b, false, false),
         _ => false,
     })
 }
@@ -386,6 +417,17 @@ impl Part for Scopes {
         .unwrap();
         env.add_template_owned("extbase.txt".to_string(), "\u{2039}eb(\u{203a}{% block eb %}\u{2039}base\u{203a}{% endblock %}\u{2039})\u{203a}".to_string()).unwrap();
         let mut v = Verdict::pass(has_separated_exit(&c.nodes, false, false));
+        // after which top-level constructs `incleak` may legitimately be defined
+        let mut leak_possible = vec![];
+        let mut seen = false;
+        for n in &c.nodes {
+            seen = seen || include_unshielded(std::slice::from_ref(n));
+            leak_possible.push(seen);
+        }
+        if contains_include(&c.nodes) && !seen {
+            v.labels.push("include_only_inside_scoped_constructs");
+            v.nontrivial = true;
+        }
         if let Err(e) = env.add_template_owned(name.to_string(), source.clone()) {
             v.set_fail("generated_template_rejected", format!("{e}\nsource: {source}"));
             return v;
@@ -448,7 +490,7 @@ impl Part for Scopes {
             // sentinels in order, with the expected probes
             let lt = if c.html { "&lt;" } else { "<" };
             let mut pos = 0usize;
-            for (sid, isolating) in &sentinels {
+            for (idx, (sid, isolating)) in sentinels.iter().enumerate() {
                 let head = format!("\u{ab}{sid}:");
                 let Some(at) = out[pos..].find(&head) else {
                     v.set_fail(
@@ -460,7 +502,7 @@ impl Part for Scopes {
                 let start = pos + at + head.len();
                 let end = out[start..].find('\u{bb}').map(|e| start + e).unwrap_or(out.len());
                 let fields: Vec<&str> = out[start..end].split(':').collect();
-                if fields.len() != 3 {
+                if fields.len() != 4 {
                     v.set_fail("sentinel_garbled", format!("sentinel {sid} renders {:?}\nsource: {source}", &out[start..end]));
                     return v;
                 }
@@ -475,6 +517,13 @@ impl Part for Scopes {
                     v.set_fail(
                         "inner_assignment_visible_outside",
                         format!("q{sid} assigned inside construct {sid} is defined after it\npath {desc}\nsource: {source}"),
+                    );
+                    return v;
+                }
+                if !leak_possible[idx] && fields[3] != "False" {
+                    v.set_fail(
+                        "included_assignment_visible_outside",
+                        format!("`incleak`, assigned by a template that was only included inside constructs with a scope of their own, is defined after construct {sid}\npath {desc}\nsource: {source}"),
                     );
                     return v;
                 }
